@@ -45,7 +45,10 @@ def build(S, tier, seed):
 
 
 def _battery(S, r, o):
-    return scenarios.put_faults_battery(S.interp.repo)
+    a = scenarios.put_faults_battery(S.interp.repo)
+    c = scenarios.put_volumes_battery(S.interp.repo)
+    return {'confirmed': a['confirmed'] or c['confirmed'], 'faults': a,
+            'volumes': c}
 
 
 REPLAYERS = {'': _battery}
